@@ -64,10 +64,12 @@ def settings_for(cipher, hashing=None, chunking=None, kdf_n=4):
     if cipher is None:
         s['encryption'] = None
     else:
-        name, bits = cipher
+        name, bits = cipher[0], cipher[1]
         c = {'name': name}
         if bits:
             c['key_bits'] = bits
+        if len(cipher) > 2 and cipher[2]:
+            c['nonce_bits'] = cipher[2]
         s['encryption'] = {'cipher': c, 'kdf': {'name': 'scrypt', 'n': kdf_n}}
     return s
 
